@@ -1,4 +1,5 @@
 import MjProof.Model.Orient
+import MjProof.Model.Attach
 import Drivers.Common
 /-
 Line protocol of the C36 orientation / frame model (doubles are the 16 hex digits of their IEEE bits):
@@ -7,9 +8,18 @@ Line protocol of the C36 orientation / frame model (doubles are the 16 hex digit
          the Euler sequence                          -> quat[4] | `error <message>`            (ResolveOrientation)
   frame fp[3] fq[4] bp[3] bq[4]                      -> pos[3] quat[4]: a body (pos bp, quat bq) in a frame (fp, fq)
   frame2 f1p[3] f1q[4] f2p[3] f2q[4] bp[3] bq[4]     -> the same with the frame nested in an outer frame
+  att <pk> <ck> <outer> <inner> <hdeg> <h0> <h1> <h2> <cdeg> <c0> <c1> <c2> <mdeg> <m0> <m1> <m2> O P G I B
+         mjs_attach of an element of a child spec (compiler degree cdeg, eulerseq c0 c1 c2) to an element of a host spec
+         (hdeg, h0 h1 h2), then compilation: pk = attachment point (0 frame, 1 body, 2 site, 3 a site that was written in a
+         third spec (mdeg, m0 m1 m2) whose body has been attached to the host before), ck = attached element
+         (0 body, 1 frame, 2 the whole child model); outer = 1: the attachment frame / site lives in the frame O;
+         inner = 1: the observed body lives in a frame I nested in the attached frame / in the child's world.
+         O P G I B are records `<type> pos[3] quat[4] axisangle[4] xyaxes[6] zaxis[3] euler[3]` of the outer frame, the
+         attachment point, the attached frame, the inner frame and the observed body (all five always present)
+                                                     -> pos[3] quat[4] of the observed body | `error attach` | `error compile`
 Malformed lines are answered with `bad-op`.
 -/
-open MjProof MjProof.Driver MjProof.Orient
+open MjProof MjProof.Driver MjProof.Orient MjProof.Attach
 
 def pi : Float := Orient.mjPI
 
@@ -27,6 +37,33 @@ def compileFrame (parent : Option (V3 Float × Q Float)) (p : V3 Float) (q : Q F
 /-- the frame step of `mjCBody::Compile`: `mjuu_normvec(quat, 4)` on the body's own quaternion, then the frame -/
 def bodyInFrame (f : V3 Float × Q Float) (p : V3 Float) (q : Q Float) : V3 Float × Q Float :=
   frameaccumChild f.1 f.2 p (normvec4 q).1
+
+/-- one record `<type> pos[3] quat[4] axisangle[4] xyaxes[6] zaxis[3] euler[3]` (24 tokens) -/
+def parseRec (c : Comp) (t : List String) : Option (Placed Float) :=
+  match t with
+  | ty :: fl =>
+    match ty.toNat?, fl.mapM floatOfBits? with
+    | some ty, some [p0, p1, p2, q0, q1, q2, q3, a0, a1, a2, a3, x0, x1, x2, y0, y1, y2, z0, z1, z2, e0, e1, e2] =>
+      if ty > 4 then none else
+      let spec : OrientSpec Float :=
+        if ty = 0 then .quat
+        else if ty = 1 then .axisangle ⟨a0, a1, a2⟩ a3
+        else if ty = 2 then .xyaxes ⟨x0, x1, x2⟩ ⟨y0, y1, y2⟩
+        else if ty = 3 then .zaxis ⟨z0, z1, z2⟩
+        else .euler e0 e1 e2
+      some ⟨c, ⟨p0, p1, p2⟩, ⟨q0, q1, q2, q3⟩, spec⟩
+    | _, _ => none
+  | [] => none
+
+/-- consecutive records, one per compiler in `cs`; every token must be consumed -/
+def parseRecs : List Comp → List String → Option (List (Placed Float))
+  | [], [] => some []
+  | [], _ :: _ => none
+  | c :: cs, t =>
+    if t.length < 24 then none else
+    match parseRec c (t.take 24), parseRecs cs (t.drop 24) with
+    | some r, some rs => some (r :: rs)
+    | _, _ => none
 
 def step (line : String) : String :=
   match words line with
@@ -59,6 +96,31 @@ def step (line : String) : String :=
       let f := compileFrame (some g) ⟨fp0, fp1, fp2⟩ ⟨fq0, fq1, fq2, fq3⟩
       let r := bodyInFrame f ⟨bp0, bp1, bp2⟩ ⟨bq0, bq1, bq2, bq3⟩
       showV r.1 ++ " " ++ showQ r.2
+    | _ => "bad-op"
+  | "att" :: pk :: ck :: outer :: inner :: hd :: h0 :: h1 :: h2 :: cd :: c0 :: c1 :: c2 :: md :: m0 :: m1 :: m2 :: rest =>
+    match [pk, ck, outer, inner, hd, h0, h1, h2, cd, c0, c1, c2, md, m0, m1, m2].mapM String.toNat? with
+    | some [pk, ck, outer, inner, hd, h0, h1, h2, cd, c0, c1, c2, md, m0, m1, m2] =>
+      if pk > 3 ∨ ck > 2 ∨ outer > 1 ∨ inner > 1 ∨ hd > 1 ∨ cd > 1 ∨ md > 1 ∨
+         [h0, h1, h2, c0, c1, c2, m0, m1, m2].any (fun c => c < 1 ∨ c > 126)
+      then "bad-op" else
+      let host : Comp := ⟨hd = 1, (h0, h1, h2)⟩
+      let child : Comp := ⟨cd = 1, (c0, c1, c2)⟩
+      let mid : Comp := ⟨md = 1, (m0, m1, m2)⟩
+      -- the site of an attached spec keeps the compiler of the spec it was written in; `mjs_getSpec` returns the host
+      let pc := if pk = 3 then mid else host
+      match parseRecs [pc, pc, child, child, child] rest with
+      | some [o, p, g, i, b] =>
+        let outerL := if outer = 1 then [o] else []
+        let innerL := if inner = 1 then [i] else []
+        let point : Point Float := if pk = 0 then .frame outerL p else if pk = 1 then .body else .site outerL p host
+        let ch : Child Float := if ck = 0 then .body b else if ck = 1 then .frame g innerL b else .model child innerL b
+        match attachChain pi host point ch with
+        | .error _ => "error attach"
+        | .ok _ =>
+          match attachPose pi host point ch with
+          | .ok r => showV r.1 ++ " " ++ showQ r.2
+          | .error _ => "error compile"
+      | _ => "bad-op"
     | _ => "bad-op"
   | _ => "bad-op"
 
